@@ -7,6 +7,7 @@ import (
 	"io"
 	"os"
 	"reflect"
+	"time"
 
 	"github.com/aperturerobotics/util/zzverif/vsched"
 )
@@ -251,6 +252,24 @@ func WorkerMain() {
 			curFile = f
 		}
 	}
+	// watchdog: an execution in which a thread runs for 90 s without reaching a scheduling point can only be a
+	// busy loop without synchronisation (a step between two points normally takes microseconds): the point
+	// horizon cannot end it, so the worker ends itself and the master records a livelock for the current prefix
+	go func() {
+		last, since := int64(-1), time.Now()
+		for {
+			time.Sleep(5 * time.Second)
+			p := vsched.Progress()
+			if vsched.Outside() || p != last {
+				last, since = p, time.Now()
+				continue
+			}
+			if time.Since(since) > 90*time.Second {
+				fmt.Fprintln(os.Stderr, "worker: no scheduling point reached for 90 s; giving up on this execution")
+				os.Exit(67)
+			}
+		}
+	}()
 	if !vsched.SelfTestChan() {
 		fmt.Fprintln(os.Stderr, "worker: hchan header layout self-test failed")
 		os.Exit(3)
